@@ -6,9 +6,11 @@ import (
 	"image"
 	"os"
 	"path/filepath"
+	"runtime"
 	"sort"
 	"strings"
 	"time"
+	"unsafe"
 
 	webp "github.com/deepteams/webp"
 	"github.com/deepteams/webp/mux"
@@ -22,6 +24,7 @@ import (
 func init() {
 	suites["vp8"] = suiteVP8
 	replayers["vp8"] = replayVP8
+	replayers["vp8retain"] = replayVP8Retain
 }
 
 type vp8Case struct {
@@ -533,6 +536,24 @@ func vp8EncCases(seed uint64, tier string) []func() (vp8Case, []byte) {
 			})
 		}
 	}
+	// token-count threshold (thresholds.go TokenCases: uniform noise at Quality 90 bracketing the 32768-token
+	// page of the encoder's token buffer), Partitions 0..3: decoded by Go and by the Lean spec decoder like
+	// every other encoder case
+	for k, tc := range vp8TokenPicks(seed, tier) {
+		o := webp.DefaultOptions()
+		o.Quality = float32(tc.Quality)
+		o.Method = []int{4, 2, 6, 0, 3, 5}[(k+int(seed))%6]
+		o.Segments = 1 + (k+int(seed))%4
+		o.Partitions = (k + int(seed)) % 4
+		o.FilterStrength = []int{0, 20, 60}[k%3]
+		g := mk(0x930000+uint64(k), tc.W, tc.H, ClsNoise, AlphaNone, o)
+		est := tc.Est
+		gens = append(gens, func() (vp8Case, []byte) {
+			c, f := g()
+			c.desc += fmt.Sprintf(" tokens-est=%d", est)
+			return c, f
+		})
+	}
 	// token partitions of 64 KiB and more (the 24-bit entries of the partition-size table need their
 	// third byte): a 512x512 noise picture at quality 95 has about 240 KB of tokens. Quick: 2
 	// partitions; thorough: 2, 4 and 8 (quality 100 so that every one of 4 partitions is that large).
@@ -553,6 +574,34 @@ func vp8EncCases(seed uint64, tier string) []func() (vp8Case, []byte) {
 		gens = append(gens, mk(0x910000+uint64(pp), 512, 512, ClsNoise, AlphaNone, o))
 	}
 	return gens
+}
+
+// vp8TokenPicks: the TokenCases of this run - one below and two above the estimate of 32768 tokens (all six
+// in the thorough tier), rotated by the seed.
+func vp8TokenPicks(seed uint64, tier string) []TokenCase {
+	all := TokenCases()
+	if tier == "thorough" || len(all) < 6 {
+		return all
+	}
+	var below, above []TokenCase
+	for _, c := range all {
+		if c.Est < c.T.Value {
+			below = append(below, c)
+		} else {
+			above = append(above, c)
+		}
+	}
+	var out []TokenCase
+	if len(below) > 0 {
+		out = append(out, below[int(seed)%len(below)])
+	}
+	if len(above) > 0 {
+		out = append(out, above[int(seed)%len(above)])
+		if len(above) > 2 {
+			out = append(out, above[(int(seed)+2)%len(above)])
+		}
+	}
+	return out
 }
 
 // vp8Mutate derives a damaged stream from a valid one; header mutations that would declare a
@@ -648,7 +697,7 @@ func vp8TablesLine() string {
 }
 
 func suiteVP8(rep *Report) error {
-	rep.Rule = "frames: (a) VP8 payloads of webp.Encode lossy outputs over colour class x size (1x1 … 100x20, 320x320, widths 1023,1024,1025,1100,2047,2048,2049,4097 x heights 1..4 and ~10 pictures on the numeric thresholds of the code - thresholds.go - with flat/gradient/sparse content, 2 of 3 with alpha, and a 512x512 noise picture at quality 95 with 2 token partitions of > 64 KiB each; thorough: also 4 and 8 partitions at quality 100) x Quality {0,20,50,75,90,100} x Method 0..6 x Segments 1..4 x Partitions 0..3 x FilterStrength {0,20,60,100} x FilterSharpness {0,3,7} x FilterType {0,1} x SNS {0,50,100} (quality x method walked, the rest drawn); (b) lossy testdata files and corpus/vp8/*.hex; (c) frames of a random VP8 writer (segment maps with absolute/delta quantiser and filter values, both filters with deltas and any sharpness, 1/2/4/8 partitions - 1 frame in 40 (thorough: 300) of those with several partitions has a NON-final partition padded with unread bytes to a declared size of 0x010000 … 0x020001, so that the 24-bit size entries use their third byte -, skip flags, all 5/10/4 intra modes uniformly, arbitrary tokens incl. categories 3-6 and zero runs, probability updates); (d) mutations of (a)-(c): bit flips, byte sets, truncations, fills, appended bytes, first-partition-size edits. Each frame is decoded by lossy.DecodeFrame (planes cropped as the public API does) and by the Lean spec decoder Webp.Spec.VP8.decode; lines (ok w h plane digests | err) are compared: ok-vs-err and planes; (e) lossy+alpha encoder outputs: webp.Decode NRGBA pixels vs the spec's fancy upsampling + YUV->RGB (op vp8nrgba) of the same VP8 payload with Go's decoded alpha plane; (f) constant tables Go vs Lean (op vp8tables); every Go decode runs under a 20 s deadline: a call that does not return is a finding (C05 hang:DecodeFrame, and C04 when the spec decodes the frame) and ends the suite. non-trivial = the spec decoder got past the 10-byte frame header; distinct = FNV of the payload"
+	rep.Rule = "frames: (a) VP8 payloads of webp.Encode lossy outputs over colour class x size (1x1 … 100x20, 320x320, widths 1023,1024,1025,1100,2047,2048,2049,4097 x heights 1..4 and ~10 pictures on the numeric thresholds of the code - thresholds.go - with flat/gradient/sparse content, 2 of 3 with alpha, and a 512x512 noise picture at quality 95 with 2 token partitions of > 64 KiB each; thorough: also 4 and 8 partitions at quality 100; 3 uniform-noise pictures at Quality 90 bracketing the 32768-token page - TokenCases - with Partitions 0..3) x Quality {0,20,50,75,90,100} x Method 0..6 x Segments 1..4 x Partitions 0..3 x FilterStrength {0,20,60,100} x FilterSharpness {0,3,7} x FilterType {0,1} x SNS {0,50,100} (quality x method walked, the rest drawn); (b) lossy testdata files and corpus/vp8/*.hex; (c) frames of a random VP8 writer (segment maps with absolute/delta quantiser and filter values, both filters with deltas and any sharpness, 1/2/4/8 partitions - 1 frame in 40 (thorough: 300) of those with several partitions has a NON-final partition padded with unread bytes to a declared size of 0x010000 … 0x020001, so that the 24-bit size entries use their third byte -, skip flags, all 5/10/4 intra modes uniformly, arbitrary tokens incl. categories 3-6 and zero runs, probability updates); (d) mutations of (a)-(c): bit flips, byte sets, truncations, fills, appended bytes, first-partition-size edits. Each frame is decoded by lossy.DecodeFrame (planes cropped as the public API does) and by the Lean spec decoder Webp.Spec.VP8.decode; lines (ok w h plane digests | err) are compared: ok-vs-err and planes; (e) lossy+alpha encoder outputs: webp.Decode NRGBA pixels vs the spec's fancy upsampling + YUV->RGB (op vp8nrgba) of the same VP8 payload with Go's decoded alpha plane; (f) constant tables Go vs Lean (op vp8tables); (g) results stay the caller's: webp.Decode of the opaque encoder outputs of (a) plus pictures whose width is a multiple of 16 (320x320, 1024x4, 2048x2, 128x16, 96x80, 64x64, 64x48, 48x64, 32x32, 32x16, 16x32, 16x16, 16x1, 16x7; no row padding in the decoder's planes), ordered by descending macroblock grid so that every picture is followed by decodes that fit the pooled decoder's slab, all on one goroutine and again under GOMAXPROCS(1): the last 6 returned *image.YCbCr are compared (rect, strides, Y/Cb/Cr samples) with copies taken at return after every further decode and at the end (vp8-planes:result-changed-after-later-decode, also filed as C11 history:immutable:lossy-dec), and every file is decoded twice with both results held - their backing arrays must be disjoint (vp8-planes:results-share-memory) and the pictures equal; every Go decode runs under a 20 s deadline: a call that does not return is a finding (C05 hang:DecodeFrame, and C04 when the spec decodes the frame) and ends the suite. non-trivial = the spec decoder got past the 10-byte frame header; distinct = FNV of the payload"
 	v := &vp8Run{rep: rep, kept: map[string][]Finding{}, totals: map[string]int{}, phase: map[string]float64{}}
 	finish := func() error {
 		rep.Extra["finding_totals"] = v.totals
@@ -695,6 +744,9 @@ func suiteVP8(rep *Report) error {
 	parallelDo(len(gens), func(i int) { cases[i], files[i] = gens[i]() })
 	v.phase["encode"] = time.Since(t0).Seconds()
 	var valid []vp8Case
+	for _, tc := range vp8TokenPicks(rep.Seed, rep.Tier) {
+		CountCount(rep, CountCase{N: tc.Est, T: tc.T})
+	}
 	for _, c := range cases {
 		if c.kind == "encfail" || c.payload == nil {
 			rep.Count("enc:failed")
@@ -753,6 +805,11 @@ func suiteVP8(rep *Report) error {
 	if v.stopped {
 		return finish()
 	}
+
+	// (g) results of earlier decodes stay as they were returned
+	t0 = time.Now()
+	v.retained(cases, files)
+	v.phase["retained"] = time.Since(t0).Seconds()
 
 	var pool []vp8Case
 	for _, c := range valid {
@@ -900,6 +957,340 @@ func (v *vp8Run) nrgba(cases []vp8Case, files [][]byte) error {
 			Input:  map[string]any{"op": "vp8nrgba", "hex": hx(j.vp8), "alpha": hx(j.alpha)}})
 	}
 	return nil
+}
+
+// ---------------------------------------------------------------------------------------------------
+// (g) A picture returned by webp.Decode belongs to the caller: no later decode may change it, and two
+// results never share memory. The lossy decoder is pooled (sync.Pool) and reconstructs into a slab that
+// the next decode on the same Decoder clears and rewrites, so the whole leg runs on ONE goroutine (and a
+// second time under GOMAXPROCS(1)): the Decoder released by one call is the one the next call gets.
+
+type vp8Kept struct {
+	img       *image.YCbCr
+	y, cb, cr []byte // private copies taken right after the decode
+	hdr       string
+	idx       int
+}
+
+func vp8YCbCrHdr(m *image.YCbCr) string {
+	return fmt.Sprintf("%v ystride=%d cstride=%d %v len=%d,%d,%d", m.Rect, m.YStride, m.CStride, m.SubsampleRatio, len(m.Y), len(m.Cb), len(m.Cr))
+}
+
+func vp8YCbCrDigest(m *image.YCbCr) string {
+	return fmt.Sprintf("YCbCr %s Y=%s Cb=%s Cr=%s", vp8YCbCrHdr(m), digest(m.Y), digest(m.Cb), digest(m.Cr))
+}
+
+func vp8Keep(m *image.YCbCr, idx int) *vp8Kept {
+	return &vp8Kept{img: m, y: append([]byte(nil), m.Y...), cb: append([]byte(nil), m.Cb...), cr: append([]byte(nil), m.Cr...), hdr: vp8YCbCrHdr(m), idx: idx}
+}
+
+// changed describes how the kept picture differs from what it was when it was returned ("" = unchanged).
+func (k *vp8Kept) changed() string {
+	m := k.img
+	if h := vp8YCbCrHdr(m); h != k.hdr {
+		return "header " + k.hdr + " -> " + h
+	}
+	var parts []string
+	for _, p := range []struct {
+		name     string
+		now, was []byte
+	}{{"Y", m.Y, k.y}, {"Cb", m.Cb, k.cb}, {"Cr", m.Cr, k.cr}} {
+		if bytes.Equal(p.now, p.was) {
+			continue
+		}
+		n, first := 0, -1
+		for i := range p.now {
+			if p.now[i] != p.was[i] {
+				if first < 0 {
+					first = i
+				}
+				n++
+			}
+		}
+		parts = append(parts, fmt.Sprintf("%s: %d of %d samples differ (first at %d: %d -> %d; %s -> %s)", p.name, n, len(p.now), first, p.was[first], p.now[first], digest(p.was), digest(p.now)))
+	}
+	return strings.Join(parts, ", ")
+}
+
+// vp8SharedPlanes names two planes of different pictures whose backing arrays overlap ("" = disjoint).
+func vp8SharedPlanes(a, b *image.YCbCr) string {
+	type pl struct {
+		name string
+		s    []byte
+	}
+	rng := func(s []byte) (lo, hi uintptr) {
+		if cap(s) == 0 {
+			return 0, 0
+		}
+		lo = uintptr(unsafe.Pointer(unsafe.SliceData(s)))
+		return lo, lo + uintptr(cap(s))
+	}
+	for _, p := range []pl{{"Y", a.Y}, {"Cb", a.Cb}, {"Cr", a.Cr}} {
+		for _, q := range []pl{{"Y", b.Y}, {"Cb", b.Cb}, {"Cr", b.Cr}} {
+			l1, h1 := rng(p.s)
+			l2, h2 := rng(q.s)
+			if h1 > l1 && h2 > l2 && l1 < h2 && l2 < h1 {
+				return fmt.Sprintf("%s of the first result and %s of the second overlap in memory (%d bytes)", p.name, q.name, minU(h1, h2)-maxU(l1, l2))
+			}
+		}
+	}
+	return ""
+}
+
+func minU(a, b uintptr) uintptr {
+	if a < b {
+		return a
+	}
+	return b
+}
+
+func maxU(a, b uintptr) uintptr {
+	if a > b {
+		return a
+	}
+	return b
+}
+
+type vp8RetFile struct {
+	file     []byte
+	desc     string
+	w, h     int
+	mbw, mbh int
+}
+
+// vp8RetainSizes: widths that are whole numbers of macroblocks (no row padding in the decoder's planes).
+var vp8RetainSizes = [][2]int{{320, 320}, {1024, 4}, {2048, 2}, {128, 16}, {96, 80}, {64, 64}, {64, 48}, {48, 64}, {32, 32}, {32, 16}, {16, 32}, {16, 16}, {16, 1}, {16, 7}}
+
+func vp8DecodeYCbCr(file []byte) (*image.YCbCr, string) {
+	var img image.Image
+	var err error
+	s, pm := guard(func() string { img, err = webp.Decode(bytes.NewReader(file)); return "done" })
+	if s == "panic" {
+		return nil, "panic " + pm
+	}
+	if err != nil {
+		return nil, "err " + err.Error()
+	}
+	m, ok := img.(*image.YCbCr)
+	if !ok {
+		return nil, fmt.Sprintf("type %T", img)
+	}
+	return m, ""
+}
+
+// retainedWalk decodes list in order on the calling goroutine, keeping the last `window` results; after
+// every decode all kept results are compared with the copies taken when they were returned. Every file is
+// decoded a second time while the first result is held: the two results must not share memory.
+func (v *vp8Run) retainedWalk(list []vp8RetFile, variant string, window int) {
+	rep := v.rep
+	var kept []*vp8Kept
+	check := func(later int, what string) {
+		for _, k := range kept {
+			ch := k.changed()
+			if ch == "" {
+				continue
+			}
+			rep.Count("retained:result-changed")
+			a, b := list[k.idx], list[later]
+			in := map[string]any{"op": "vp8retain", "hex": hx(a.file), "hex2": hx(b.file), "first": a.desc, "second": b.desc, "variant": variant}
+			det := fmt.Sprintf("the *image.YCbCr returned by webp.Decode of an opaque lossy file (%s) changed during a later webp.Decode (%s%s; %d decodes after it, %s): %s",
+				a.desc, b.desc, what, later-k.idx, variant, ch)
+			v.add(Finding{Kind: "property", Property: "C04", Signature: "vp8-planes:result-changed-after-later-decode", Detail: det, Input: in})
+			v.add(Finding{Kind: "property", Property: "C11", Signature: "history:immutable:lossy-dec", Detail: det, Input: in})
+			// report once per change: from here on compare with the present content
+			*k = *vp8Keep(k.img, k.idx)
+		}
+	}
+	for i, f := range list {
+		m, why := vp8DecodeYCbCr(f.file)
+		check(i, "")
+		if m == nil {
+			rep.Count("retained:not-ycbcr:" + strings.SplitN(why, " ", 2)[0])
+			if strings.HasPrefix(why, "panic") {
+				v.add(Finding{Kind: "property", Property: "C05", Signature: "panic:Decode:" + panicClass(why[6:]), Detail: "webp.Decode panicked on an encoder output: " + why + " (" + f.desc + ")",
+					Input: map[string]any{"op": "vp8retain", "hex": hx(f.file), "hex2": hx(f.file)}})
+			}
+			continue
+		}
+		rep.Count("retained:decodes:" + variant)
+		if variant == "procs=all" {
+			rep.Eval(true, append([]byte("retain"), f.file...))
+			if f.w%16 == 0 {
+				rep.Count("retained:width%16=0")
+			} else {
+				rep.Count("retained:width%16!=0")
+			}
+		}
+		me := vp8Keep(m, i)
+		kept = append(kept, me)
+		if len(kept) > window {
+			kept = kept[1:]
+		}
+		// the same file again, first result held
+		m2, _ := vp8DecodeYCbCr(f.file)
+		check(i, ", the same file again")
+		if m2 != nil {
+			if sh := vp8SharedPlanes(m, m2); sh != "" {
+				rep.Count("retained:results-share-memory")
+				v.add(Finding{Kind: "property", Property: "C04", Signature: "vp8-planes:results-share-memory",
+					Detail: fmt.Sprintf("two webp.Decode calls on the same opaque lossy file (%s), both results held: %s (%s)", f.desc, sh, variant),
+					Input:  map[string]any{"op": "vp8retain", "hex": hx(f.file), "hex2": hx(f.file), "first": f.desc, "second": f.desc, "variant": variant}})
+			} else {
+				rep.Count("retained:pairs-disjoint")
+			}
+			if d1, d2 := vp8YCbCrDigest(m), vp8YCbCrDigest(m2); d1 != d2 {
+				v.add(Finding{Kind: "property", Property: "C04", Signature: "vp8-planes:same-file-decodes-differ",
+					Detail: fmt.Sprintf("two webp.Decode calls on the same opaque lossy file (%s) return different pictures: %s vs %s (%s)", f.desc, d1, d2, variant),
+					Input:  map[string]any{"op": "vp8retain", "hex": hx(f.file), "hex2": hx(f.file), "first": f.desc, "second": f.desc, "variant": variant}})
+			}
+		}
+	}
+	if len(list) > 0 {
+		check(len(list)-1, ", end of the walk")
+	}
+}
+
+// retained: leg (g). Files: the opaque encoder outputs of leg (a) plus pictures whose width is a multiple
+// of 16, ordered by descending macroblock grid (within one grid the multiples of 16 first), so that every
+// picture is followed by pictures whose decode fits into the slab the pooled decoder already has.
+func (v *vp8Run) retained(cases []vp8Case, files [][]byte) {
+	rep := v.rep
+	var list []vp8RetFile
+	add := func(file []byte, desc string) {
+		if len(file) < 30 || string(file[12:16]) != "VP8 " {
+			return // extended file: alpha (NRGBA result) - leg (e)
+		}
+		w, h, ok := vp8Dims(file[20:])
+		if !ok || w == 0 || h == 0 {
+			return
+		}
+		list = append(list, vp8RetFile{file, desc, w, h, (w + 15) / 16, (h + 15) / 16})
+	}
+	for i, f := range files {
+		if f != nil && cases[i].payload != nil {
+			add(f, cases[i].desc)
+		}
+	}
+	reps := 2
+	if rep.Tier == "thorough" {
+		reps = 6
+	}
+	type job struct {
+		w, h, k int
+	}
+	var jobs []job
+	for k := 0; k < reps; k++ {
+		for _, sz := range vp8RetainSizes {
+			jobs = append(jobs, job{sz[0], sz[1], k})
+		}
+	}
+	extra := make([]vp8RetFile, len(jobs))
+	parallelDo(len(jobs), func(i int) {
+		j := jobs[i]
+		r := NewRNG(rep.Seed, 0x14000000+uint64(i))
+		o := webp.DefaultOptions()
+		o.Quality = float32([]int{30, 75, 90, 50}[r.Intn(4)])
+		o.Method = r.Intn(5)
+		o.Partitions = r.Intn(4)
+		o.Segments = 1 + r.Intn(4)
+		var img image.Image
+		desc := ""
+		if j.w*j.h > 4096 && j.w > 512 {
+			kind := r.Intn(NumCheapClasses)
+			img, desc = GenCheapImage(r, j.w, j.h, kind, AlphaNone), cheapDesc(j.w, j.h, kind, AlphaNone)
+		} else {
+			cls := []int{ClsPhoto, ClsNoise, ClsGradient, ClsPal16}[r.Intn(4)]
+			img, desc = GenImage(r, j.w, j.h, cls, AlphaNone), imgDesc(j.w, j.h, cls, AlphaNone)
+		}
+		var buf bytes.Buffer
+		if err := webp.Encode(&buf, img, o); err == nil {
+			extra[i] = vp8RetFile{file: buf.Bytes(), desc: fmt.Sprintf("%s q=%d m=%d parts=%d #%d", desc, int(o.Quality), o.Method, o.Partitions, j.k)}
+		}
+	})
+	for _, e := range extra {
+		if e.file != nil {
+			add(e.file, e.desc)
+		}
+	}
+	sort.SliceStable(list, func(i, j int) bool {
+		a, b := list[i], list[j]
+		if a.mbw*a.mbh != b.mbw*b.mbh {
+			return a.mbw*a.mbh > b.mbw*b.mbh
+		}
+		if a.mbw != b.mbw {
+			return a.mbw > b.mbw
+		}
+		return (a.w%16 == 0) && (b.w%16 != 0)
+	})
+	window := 6
+	v.retainedWalk(list, "procs=all", window)
+	// again with a single P: every sync.Pool Get finds what the previous Put left (multiples of 16 and every
+	// 3rd other file)
+	var sub []vp8RetFile
+	for i, f := range list {
+		if f.w%16 == 0 || i%3 == 0 {
+			sub = append(sub, f)
+		}
+	}
+	old := runtime.GOMAXPROCS(1)
+	v.retainedWalk(sub, "procs=1", window)
+	runtime.GOMAXPROCS(old)
+}
+
+// replayVP8Retain: decode file A (hex), keep the result, decode file B (hex2) a few times on the same
+// goroutine with a single P - cold pool first, then with a pooled decoder whose slab is large enough for
+// both; exit 1 when A's result changed or (A == B) the two results share memory.
+func replayVP8Retain(in map[string]any) int {
+	ha, _ := in["hex"].(string)
+	hb, _ := in["hex2"].(string)
+	a, b := unhx(ha), unhx(hb)
+	if hb == "" {
+		b = a
+	}
+	old := runtime.GOMAXPROCS(1)
+	defer runtime.GOMAXPROCS(old)
+	rc := 0
+	for round := 0; round < 2; round++ {
+		if round == 1 {
+			// grow the pooled decoder's slab first
+			var buf bytes.Buffer
+			o := webp.DefaultOptions()
+			if err := webp.Encode(&buf, image.NewNRGBA(image.Rect(0, 0, 1024, 512)), o); err == nil {
+				_, _ = vp8DecodeYCbCr(buf.Bytes())
+			}
+		}
+		m, why := vp8DecodeYCbCr(a)
+		if m == nil {
+			fmt.Printf("round %d: first file does not decode to YCbCr: %s\n", round, why)
+			if strings.HasPrefix(why, "panic") {
+				return 1
+			}
+			return 0
+		}
+		k := vp8Keep(m, 0)
+		fmt.Printf("round %d: first result  %s\n", round, vp8YCbCrDigest(m))
+		for i := 0; i < 3; i++ {
+			m2, why := vp8DecodeYCbCr(b)
+			if ch := k.changed(); ch != "" {
+				fmt.Printf("round %d: first result changed during decode %d of the second file: %s\n", round, i+1, ch)
+				rc = 1
+				break
+			}
+			if m2 == nil {
+				fmt.Printf("round %d: second file: %s\n", round, why)
+				continue
+			}
+			if sh := vp8SharedPlanes(m, m2); sh != "" {
+				fmt.Printf("round %d: %s\n", round, sh)
+				rc = 1
+				break
+			}
+		}
+		if rc == 0 {
+			fmt.Printf("round %d: first result unchanged, results disjoint\n", round)
+		}
+	}
+	return rc
 }
 
 func replayVP8(in map[string]any) int {
